@@ -919,6 +919,14 @@ func runC10(c *Ctx) {
 			if k, ok := constInt(args[len(args)-3]); ok {
 				when = k
 			}
+			// a renderer's own measuring callback runs in the RENDER slot of each cell: after every pre-cell callback
+			// (which may still change what the cell shows) and before every post-cell one (which may read the
+			// measurements); all renderers agree on that, so a table measures the same however it was wrapped
+			if pp := funcPkgPath(fn); pp != modPath && pp != pkgPath("examples") && strings.HasPrefix(pp, modPath) {
+				okSlot := when == cc.times["RENDER"] && target == cc.targets["CELL"]
+				r.Check("R10.1", FuncName(fn), fmt.Sprintf("RegisterPropertyCallback call #%d: the renderer's measuring callback is registered for the RENDER slot of each cell", cnt), call.Pos(), okSlot,
+					fmt.Sprintf("registered for time %d, target %d: measurements would be taken before pre-cell callbacks have run (or not per cell), so the layout depends on which callbacks were registered before the wrapper was made", when, target))
+			}
 			checked := errorChecked(call)
 			inner := unwrap(ownerArg, true)
 			var types_ []types.Type
